@@ -1,10 +1,84 @@
-(* C25 — TEMPORARY (demonstration of the violation on the unfixed code). *)
+(* C25 — Requested network re-probes are never silently dropped.
+   This file holds ONLY the property theorems; each is closed by `exact`.
+   The transition system (Model/C25.v) has one step per critical section / channel
+   operation of the socket actor and of the net-report run tasks; [steps o cap s tr]
+   runs an arbitrary event sequence [tr]; the theorems hold for every sequence. *)
 From V Require Import Lib.Base Model.C25 Proofs.C25.
 Import C25.
 Open Scope N_scope.
 
+(* At most one network report runs at a time: in every state reached by any event
+   sequence, for either order of {guard release, done signal} and any channel capacity,
+   run tasks have distinct ids, at most one of them still holds the reporter guard, the
+   lock is held exactly when one does, and a task that is still probing or storing holds it. *)
+Theorem C25_at_most_one_run : forall o cap e0 tr s,
+  steps o cap (init e0) tr = Some s ->
+  NoDup (map tid (tasks s)) /\
+  (forall k1 k2, In k1 (tasks s) -> In k2 (tasks s) -> rel k1 = false -> rel k2 = false -> k1 = k2) /\
+  (lock s = true <-> exists k, In k (tasks s) /\ rel k = false) /\
+  (forall k, In k (tasks s) -> ph k = Spawned \/ ph k = Worked -> rel k = false).
+Proof. exact at_most_one_run. Qed.
+Print Assumptions C25_at_most_one_run.
+
+(* No stuck request (the code as it is now: guard released before the done signal): in every
+   reachable state a pending want_update implies that a done signal is queued, or the actor
+   has received one and is about to call try_run, or some run task has not sent its yet. *)
+Theorem C25_no_stuck_request : forall cap e0 tr s w,
+  steps ReleaseFirst cap (init e0) tr = Some s -> want s = Some w ->
+  0 < doneq s \/ got s = true \/ exists k, In k (tasks s) /\ snt k = false.
+Proof. exact no_stuck_request. Qed.
+Print Assumptions C25_no_stuck_request.
+
+(* The order of the pinned revision (done signal first, guard dropped when the task ends)
+   does NOT have the property: a reachable state with a pending request, no queued signal,
+   no task, the lock free and no internal step enabled — the request waits for the next
+   external schedule_run (the periodic tick, 20-26 s). *)
 Theorem C25_send_first_refuted :
   exists tr s w, steps SendFirst 8 (init false) tr = Some s /\
-    want s = Some w /\ pending_trigger s = false /\ tasks s = [] /\ lock s = false.
+    want s = Some w /\ pending_trigger s = false /\ tasks s = [] /\ lock s = false /\
+    (forall e, internal e = true -> enabled SendFirst 8 s e = false).
 Proof. exact send_first_refuted. Qed.
 Print Assumptions C25_send_first_refuted.
+
+(* Progress, part 1: while a request is pending, some step of the actor's done handling or
+   of a run task is enabled (channel capacity at least 1). *)
+Theorem C25_pending_request_has_enabled_step : forall cap e0 tr s w,
+  1 <= cap -> steps ReleaseFirst cap (init e0) tr = Some s -> want s = Some w ->
+  exists e, internal e = true /\ enabled ReleaseFirst cap s e = true.
+Proof. exact pending_request_has_enabled_step. Qed.
+Print Assumptions C25_pending_request_has_enabled_step.
+
+(* Progress, part 2 (variant): every such step strictly decreases the measure [mu], except
+   the step in which try_run takes the pending request and starts its run.  Hence from a
+   reachable state with a pending request, after at most [mu s] internal steps try_run has
+   started the requested run (or a new external request met a free lock). *)
+Theorem C25_internal_steps_decrease_measure : forall o cap e0 tr s e s',
+  steps o cap (init e0) tr = Some s -> step o cap s e = Some s' -> internal e = true ->
+  (forall w t, e <> ETry (TStart w t)) -> mu s' < mu s.
+Proof. exact internal_steps_decrease_measure. Qed.
+Print Assumptions C25_internal_steps_decrease_measure.
+
+Theorem C25_try_start_consumes_request : forall o cap s w t s',
+  step o cap s (ETry (TStart w t)) = Some s' ->
+  want s = Some w /\ want s' = None /\ In (mkTask t Spawned false false) (tasks s').
+Proof. exact try_start_consumes. Qed.
+Print Assumptions C25_try_start_consumes_request.
+
+(* The trace the model predicts for a harness script is a run of the transition system. *)
+Theorem C25_model_trace_is_run : forall o i,
+  exists s', steps o DONE_CAP (init (fst i)) (model_trace o i) = Some s'.
+Proof. exact model_trace_run. Qed.
+Print Assumptions C25_model_trace_is_run.
+
+(* The boolean monitor evaluated on an observed trace says: after every prefix of the
+   trace, a pending request has something left to trigger it and at most one task holds
+   the reporter guard (lock held exactly then). *)
+Theorem C25_monitor_is_property : forall e0 cs tr,
+  monitor (e0, cs) (Ok tr) = true <->
+  forall n, Good (run_evs (init e0) (firstn n tr)).
+Proof. exact monitor_spec. Qed.
+Print Assumptions C25_monitor_is_property.
+
+Theorem C25_model_satisfies_monitor : forall i, monitor i (model i) = true.
+Proof. exact model_monitor. Qed.
+Print Assumptions C25_model_satisfies_monitor.
